@@ -169,7 +169,7 @@ ERefVal(D, s, n) ==
     LET b  == Definer(D, s, "refs", n)
         r  == D.refs[b][n]
         v  == r.v IN
-    IF b = s \/ v[1] \in {"int", "dead"} \/ r.mode = "absolute" THEN v
+    IF b = s \/ v[1] \notin {"sp", "ce"} \/ r.mode = "absolute" THEN v
     ELSE LET full == IF v[1] = "ce" THEN Append(v[2], v[4]) ELSE v[2]
              rt   == RelTarget(D, s, b, full) IN
          IF rt = Fail THEN v
@@ -219,7 +219,7 @@ RootOf(ctx) ==                 \* <<static path of the root's base, steps up to 
     <<ctx[1], SubSeq(steps, 1, fi)>>
 
 DynRebind(D, ctx, r, v) ==
-    IF v[1] \in {"int", "dead"} \/ r.mode = "absolute" \/ Len(ctx[2]) = 0 THEN v
+    IF v[1] \notin {"sp", "ce"} \/ r.mode = "absolute" \/ Len(ctx[2]) = 0 THEN v
     ELSE LET root == RootOf(ctx)
              rb   == root[1]                \* static base path of the root item
              full == v[2] IN
